@@ -304,13 +304,15 @@ def rule_kv(program, ctx):
         srcs = [s for s in ast.walk(body) if isinstance(s, ast.Assign) and any(isinstance(t, ast.Name) and t.id == idset for t in s.targets)]
         srcs += [c for c in ast.walk(body) if isinstance(c, ast.Call) and isinstance(c.func, ast.Attribute) and c.func.attr in ("add", "append") and dotted(c.func.value) == idset]
         good = False
+        from ..lib import expand_aliases, guard_atoms
         for s in srcs:
-            txt = ast.unparse(s)
-            if "event.tags" in txt and "'e'" in txt and "tag[1]" in txt:
+            txt = ast.unparse(expand_aliases(fn, s) if isinstance(s, ast.Call) else s)
+            if "event.tags" in txt and "'e'" in txt and "[1]" in txt:
                 good = True
-            elif isinstance(s, ast.Call) and "tag[1]" in txt and any(isinstance(a, ast.For) and ast.unparse(a.iter) == "event.tags" for a in ancestors(s)) \
-                    and any(isinstance(a, ast.If) and "'e'" in ast.unparse(a.test) for a in ancestors(s)):
-                good = True
+            elif isinstance(s, ast.Call) and "[1]" in txt:
+                loop = next((a for a in ancestors(s) if isinstance(a, ast.For) and ast.unparse(a.iter) == "event.tags" and isinstance(a.target, ast.Name)), None)
+                if loop is not None and f"{loop.target.id}[1]" in txt and any("'e'" in ast.unparse(e) and pol for e, pol in guard_atoms(s, stop=loop)):
+                    good = True
         if good:
             ctx.ok(rid, srcs[0], f"`{idset}` is built from tag[1] of this event's 'e' tags")
         else:
